@@ -137,6 +137,12 @@ def base_dumps():
     ghost = [R('BSC_write', 1, (7, 0x7777, 119, 0), tid=4, ts=1), R('BSC_write', 2, (0, 119, 0, 0), tid=4, ts=2)]
     fake = b'ab' + B.TAG_THREADMAP + B.le(32, 8) + B.threadmap_entries([(4, 44, 'ghost')]) + B.TAG_EVENTS + B.le(64 * 2 + 8, 8) + b'\0' * 8 + b''.join(ghost) + b'\0' * 40
     out['v3-stackshot-holds-chunks'] = v3d(threads=[(1, 10, 'procA')], chunks=[plain[:2]], filler1=fake)
+    # a dump without a thread map whose stream declares a thread AFTER that thread's first line
+    nomap = [R('BSC_getpid', 1, tid=3, ts=30), R('BSC_getpid', 2, (0, 10, 0, 0), tid=3, ts=31), R('TRACE_DATA_NEWTHREAD', 0, (3, 20, 0, 0), tid=2, ts=32),
+             R('TRACE_STRING_NEWTHREAD', 0, tid=2, ts=33, data=b'gamma'.ljust(32, b'\0')), R('BSC_getpid', 1, tid=3, ts=34), R('BSC_getpid', 2, (0, 20, 0, 0), tid=3, ts=35)]
+    out['v2-nomap-declares'] = v2d([], 0, nomap)
+    # a recorder that flushes often: 80 events chunks of one record each (the amount of READING stays linear in the length)
+    out['v3-many-chunks'] = v3d(threads=[(1, 10, 'procA')], chunks=[[B.rec(500 + i, (i, 2, 3, 4), 9, 0x040c000d)] for i in range(80)], blocks=[codes])
     out['v3-nochunks-meta'] = v3d(threads=[], chunks=[[]], blocks=[codes], with8=False)
     return out
 
@@ -176,8 +182,8 @@ def obs(x):
     return ('ev', x.timestamp, x.data, tuple(x.values), x.tid, x.debugid, x.eventid, x.func_qualifier)
 
 
-def consume(blob, consumer, limit=None):
-    """returns (items, how_stopped, reader, late_changes)"""
+def consume(blob, consumer, limit=None, facade=None):
+    """returns (items, how_stopped, reader, late_changes); facade: a PyKdebugParser object to use instead of a new one"""
     reader = CountingReader(blob)
     items = []
     live = []
@@ -188,7 +194,7 @@ def consume(blob, consumer, limit=None):
         if consumer == 'parse':
             gen = KdBufParser({}, {}).parse(reader)
         else:
-            f = PyKdebugParser()
+            f = facade if facade is not None else PyKdebugParser()
             if consumer == 'kevents':
                 gen = f.kevents(reader)
             elif consumer == 'traces':
@@ -266,6 +272,15 @@ def judge_cut(name, consumer, cut):
             bad.append(('event-fabricated-from-partial-record', {'got_n': len(got), 'complete_records': complete}))
     if late:
         bad.append(('reported-item-changed-later', {'indices': late}))
+    if 'nomap' in name and consumer.startswith('formatted') and not bad:
+        # the object that has already listed the COMPLETE dump lists the truncated one: still a prefix of the complete listing
+        f = PyKdebugParser()
+        consume(blob, consumer, facade=f)
+        items2, how2, _, _ = consume(blob[:cut], consumer, facade=f)
+        got2 = only_events(items2)
+        if how2 not in ('budget', 'watchdog') and got2 != exp[:len(got2)]:
+            bad.append(('truncated-output-not-a-prefix:' + consumer + ':object-that-listed-the-complete-dump-before', {'got_n': len(got2), 'first_diff': next(
+                (i for i, (a, b) in enumerate(zip(got2, exp)) if a != b), min(len(got2), len(exp)))}))
     return bad, len(items)
 
 
@@ -363,6 +378,8 @@ class C06(Check):
             return STACK_CONSUMERS + ['traces', 'formatted_traces']
         if 'rename' in name:
             return CONSUMERS + FILTERED_CONSUMERS
+        if 'nomap' in name:
+            return CONSUMERS
         if 'overlap' in name:
             return ['traces', 'formatted_traces']
         if self.tier == 'quick':
@@ -378,7 +395,7 @@ class C06(Check):
         out = []
         for name, (blob, _) in dumps().items():
             for c in self.consumers(name):
-                for ch in chunked(range(len(blob) + 1), 4):
+                for ch in chunked(range(len(blob) + 1), 4 if 'many-chunks' not in name else 424):
                     out.append(('cut', name, c, ch[0], ch[-1] + 1))
                 out.append(('limit', name, c))
         return out
@@ -389,6 +406,8 @@ class C06(Check):
             blob, recs = dumps()[name]
             boundaries = {s for s, e in recs} | {e for s, e in recs} | {len(blob)}
             for cut in range(lo, hi):
+                if 'many-chunks' in name and not (cut % 53 == 0 or cut > len(blob) - 9):
+                    continue       # this dump is 8 KB: every 53rd cut and the last eight
                 bad, n = judge_cut(name, consumer, cut)
                 if consumer in ('formatted_kevents', 'formatted_traces'):
                     bad = bad + judge_cli_cut(name, consumer, cut)
